@@ -1,4 +1,4 @@
-import TcheranVerif.Driver.Gens
+import TcheranVerif.Driver.Handlers
 import TcheranVerif.Model.Geometry
 /-!
 # tvdriver — the model behind the line protocol
@@ -102,7 +102,6 @@ def fenAnswer (text : String) : String :=
 
 def handle (line : String) : String × String :=
   let f := line.splitOn "\t"
-  let bad := ("bad-request", "-")
   match f with
   | ["rook", s, o] =>
     match sqOfIdx s, bbOfHex o with
@@ -149,6 +148,15 @@ def handle (line : String) : String × String :=
       let w := Fen.write p.game
       (s!"W={w} G0={dumpGame p.game} G1={fenAnswer w}", "-")
     | none => bad
+  | ["tt", mb, ops] => ttHandle mb ops
+  | ["tt", mb] => ttHandle mb ""
+  | "limits" :: rest => limitsHandle rest
+  | ["evalpair", a, b] => evalpairHandle a b
+  | ["blend", mg, eg, ph] => blendHandle mg eg ph
+  | ["see", a, b] => seeHandle a b
+  | ["san", fen] => sanHandle fen
+  | "picker" :: rest => pickerHandle rest
+  | ["search", mb, jobs] => searchHandle mb jobs
   | _ => bad
 
 partial def serveLoop (h : IO.FS.Stream) (out : IO.FS.Stream) : IO Unit := do
